@@ -23,6 +23,11 @@ def childFinalRow (ws : List Nat) (F : Row) : BV → Row
   | .leaf row => row
   | .node l r => upLoop F (rowB ws (.node l r)) (rowB ws l) (rowB ws r)
 
+/-- the weighted number of changes the down pass adds to the score on this subtree -/
+def costB (ws : List Nat) : BV → Nat
+  | .leaf _ => 0
+  | .node l r => costB ws l + costB ws r + sumL (pairLoop ws (rowB ws l) (rowB ws r)).2
+
 /-- the node carries `F`, its descendants what the up pass derives from it -/
 inductive FinStored (ws : List Nat) (attrs : Attrs) : Row → T → BV → Prop
   | leaf {i : Nat} {x : Option Nat} {l : Option Frac} {s : Option String} {row F : Row} :
@@ -78,13 +83,14 @@ theorem stepNode_bin {m : Matrix} {ws : List Nat} {st : St} {i : Nat} {x : Optio
 /-- **the down pass leaves every node its down-pass row** -/
 theorem down_stored {m : Matrix} {ws : List Nat} {t : T} {bv : BV} (hv : View m t bv) :
     (ids t).Nodup → ∀ st st' : St, runNodes m ws st (post t) = .ok st' →
-      Stored ws st'.attrs t bv ∧ ∀ j, j ∉ ids t → getAttr st'.attrs j = getAttr st.attrs j := by
+      Stored ws st'.attrs t bv ∧ (∀ j, j ∉ ids t → getAttr st'.attrs j = getAttr st.attrs j) ∧
+      st'.score = st.score + costB ws bv := by
   induction hv with
   | @leaf i x l s row h =>
     intro _ st st' hr
     simp only [post, postL, List.nil_append, runNodes, stepNode, T.cs, T.taxon, h, T.id] at hr
     cases hr
-    refine ⟨.leaf (getAttr_cons_self _ _ _), ?_⟩
+    refine ⟨.leaf (getAttr_cons_self _ _ _), ?_, by simp [costB]⟩
     intro j hj
     rw [ids_leaf] at hj
     exact getAttr_cons_ne (by simpa using hj) _ _
@@ -105,8 +111,8 @@ theorem down_stored {m : Matrix} {ws : List Nat} {t : T} {bv : BV} (hv : View m 
       | ok st2 =>
         rw [h2] at hr
         simp only [runNodes] at hr
-        obtain ⟨sa, fa⟩ := iha hna st st1 h1
-        obtain ⟨sb, fb⟩ := ihb hnb st1 st2 h2
+        obtain ⟨sa, fa, ca⟩ := iha hna st st1 h1
+        obtain ⟨sb, fb, cb⟩ := ihb hnb st1 st2 h2
         have sa2 : Stored ws st2.attrs a ba := stored_congr sa (fun j hj => fb j (hdisj j hj))
         have ra := stored_root sa2
         have rb := stored_root sb
@@ -116,11 +122,70 @@ theorem down_stored {m : Matrix} {ws : List Nat} {t : T} {bv : BV} (hv : View m 
         · simp [hs] at hr
           subst hr
           refine ⟨.node (getAttr_cons_self _ _ _) (stored_congr sa2 fun j hj => getAttr_cons_ne (ne_of_mem hj hia) _ _)
-            (stored_congr sb fun j hj => getAttr_cons_ne (ne_of_mem hj hib) _ _), ?_⟩
+            (stored_congr sb fun j hj => getAttr_cons_ne (ne_of_mem hj hib) _ _), ?_, by simp only [costB]; omega⟩
           intro j hj
           rw [ids_node2] at hj
           simp only [List.mem_cons, List.mem_append, not_or] at hj
           rw [getAttr_cons_ne hj.1, fb j hj.2.2, fa j hj.2.1]
+
+theorem rowB_len {ws : List Nat} {n : Nat} (hws : n ≤ ws.length) : ∀ (bv : BV), bv.All (fun row => row.length = n) →
+    (rowB ws bv).length = n
+  | .leaf _, h => h
+  | .node l r, h => by
+    have := (pairLoop_spec n ws _ _ hws (rowB_len hws l h.1) (rowB_len hws r h.2)).1
+    simpa [rowB] using this
+
+theorem runNodesNP_append (ws : List Nat) : ∀ (l₁ : List T) (st : St) (l₂ : List T),
+    runNodesNP ws st (l₁ ++ l₂) =
+      match runNodesNP ws st l₁ with
+      | (st', none) => runNodesNP ws st' l₂
+      | (st', some e) => (st', some e)
+  | [], st, l₂ => by simp [runNodesNP]
+  | nd :: l₁, st, l₂ => by
+    simp only [List.cons_append, runNodesNP]
+    cases stepNodeN ws st nd with
+    | error e => rfl
+    | ok st' => exact runNodesNP_append ws l₁ st' l₂
+
+/-- **the down pass without a map on nodes that carry the rows of an earlier pass** recomputes the same rows and adds the same cost -/
+theorem nomap_run {ws : List Nat} {n : Nat} (hws : n ≤ ws.length) : ∀ (bv : BV) (t : T) (A : Attrs), Stored ws A t bv →
+    bv.All (fun row => row.length = n) → ∀ st : St, (∀ j, getAttr st.attrs j = getAttr A j) →
+    ∃ st', runNodesNP ws st (post t) = (st', none) ∧ (∀ j, getAttr st'.attrs j = getAttr A j) ∧
+      st'.score = st.score + costB ws bv := by
+  intro bv
+  induction bv with
+  | leaf row =>
+    intro t A h _ st heq
+    cases h with
+    | @leaf i x l s _ h =>
+      refine ⟨st, ?_, heq, by simp [costB]⟩
+      simp [post, postL, runNodesNP, stepNodeN, T.cs, id_node, heq i, h]
+  | node ba bb iha ihb =>
+    intro t A h hr st heq
+    cases h with
+    | @node i x l s a b _ _ h sa sb =>
+      have hp : post (.node i x l s [a, b]) = post a ++ (post b ++ [.node i x l s [a, b]]) := by simp [post, postL]
+      obtain ⟨st1, r1, e1, c1⟩ := iha a A sa hr.1 st heq
+      obtain ⟨st2, r2, e2, c2⟩ := ihb b A sb hr.2 st1 e1
+      have ra : getAttr st2.attrs a.id = some (rowB ws ba) := by rw [e2]; exact stored_root sa
+      have rb : getAttr st2.attrs b.id = some (rowB ws bb) := by rw [e2]; exact stored_root sb
+      have hl := (rowB_len hws ba hr.1)
+      have hrr := (rowB_len hws bb hr.2)
+      have hsh := shortHit_false n ws _ _ hws hl hrr
+      refine ⟨{ attrs := (i, (pairLoop ws (rowB ws ba) (rowB ws bb)).1) :: st2.attrs,
+                score := st2.score + sumL (pairLoop ws (rowB ws ba) (rowB ws bb)).2,
+                bychar := addL st2.bychar (pairLoop ws (rowB ws ba) (rowB ws bb)).2 }, ?_, ?_, by simp only [costB]; omega⟩
+      · rw [hp, runNodesNP_append, r1]
+        simp only
+        rw [runNodesNP_append, r2]
+        simp only [runNodesNP, stepNodeN, T.cs]
+        rw [stepNode_bin ra rb]
+        simp [hsh]
+      · intro j
+        by_cases hj : j = i
+        · subst hj
+          rw [getAttr_cons_self, h]; rfl
+        · rw [getAttr_cons_ne hj, e2]
 
 theorem runUp_append (m : Option Matrix) : ∀ (l₁ : List (Option Nat × T)) (attrs : Attrs) (l₂ : List (Option Nat × T)),
     runUp m attrs (l₁ ++ l₂) =
